@@ -369,7 +369,7 @@ def real_options(opts, log):
 
 
 class DidNotTerminate(BaseException):
-    """the library call exceeded REAL_LIMIT_S seconds (a Python-level loop; raised from a SIGALRM handler)"""
+    """the library call used more than REAL_LIMIT_S seconds of CPU (a Python-level loop; raised from a signal handler)"""
 
 
 REAL_LIMIT_S = float(os.environ.get("VERIF_REAL_LIMIT_S", "10"))
@@ -377,8 +377,11 @@ REAL_LIMIT_S = float(os.environ.get("VERIF_REAL_LIMIT_S", "10"))
 
 class time_limit:
     """bound one in-process library call: non-termination is an outcome of the call ("err": "DidNotTerminate"),
-    not a hang of the check.  Only effective in the main thread (signal handlers); elsewhere it is a no-op and the
-    per-check watchdog remains the last resort."""
+    not a hang of the check.  The limit is on the CPU time of the process (ITIMER_PROF), so a loaded machine cannot
+    turn a slow-but-finite call into a false alarm (seen once: three harmless rewrites "failed" while 30 jobs shared
+    16 cores and passed when re-run); a wall-clock limit twelve times as long backs it up for calls that block
+    without using CPU.  Only effective in the main thread (signal handlers); elsewhere it is a no-op and the per-check
+    watchdog remains the last resort."""
 
     def __init__(self, seconds=None):
         self.seconds = REAL_LIMIT_S if seconds is None else seconds   # module attribute read at call time
@@ -389,17 +392,22 @@ class time_limit:
         import threading
         if threading.current_thread() is threading.main_thread():
             def handler(signum, frame):
-                raise DidNotTerminate("no result after %.0f s" % self.seconds)
-            self.old = signal.signal(signal.SIGALRM, handler)
-            signal.setitimer(signal.ITIMER_REAL, self.seconds)
+                raise DidNotTerminate("no result after %.0f s of CPU time" % self.seconds if signum == signal.SIGPROF
+                                      else "no result after %.0f s" % (12 * self.seconds))
+            self.old = signal.signal(signal.SIGPROF, handler)
+            self.old_real = signal.signal(signal.SIGALRM, handler)
+            signal.setitimer(signal.ITIMER_PROF, self.seconds)
+            signal.setitimer(signal.ITIMER_REAL, 12 * self.seconds)
             self.active = True
         return self
 
     def __exit__(self, *a):
         import signal
         if self.active:
+            signal.setitimer(signal.ITIMER_PROF, 0)
             signal.setitimer(signal.ITIMER_REAL, 0)
-            signal.signal(signal.SIGALRM, self.old)
+            signal.signal(signal.SIGPROF, self.old)
+            signal.signal(signal.SIGALRM, self.old_real)
         return False
 
 
